@@ -231,6 +231,17 @@ func TestC15_SignVerify(t *testing.T) {
 			if o.Type == k.Type {
 				label = "other-key-same-type"
 			}
+			if k.Type != ktEd25519 && rapid.Bool().Draw(t, "mirroredKey") {
+				// the other key with the same x: the mirrored point (x, p-y), whose private key is n-d. First the right key is
+				// used once more, so that anything remembered about this x is the right key's.
+				if _, err := jwsutil.VerifyJWS(compact, jwk); err != nil {
+					t.Fatalf("C15 %s: second verification under the matching key failed: %v", k.Name, err)
+				}
+				my := new(big.Int).Sub(k.curve().Params().P, k.EC.Y)
+				mj := *jwk
+				mj.Y = b64(my.FillBytes(make([]byte, k.Type.Width())))
+				bad, badKey, label = compact, &mj, "other-key-mirrored-point"
+			}
 		case 6: // signature truncated / extended
 			if rapid.Bool().Draw(t, "truncate") {
 				bad, label = seg[0]+"."+seg[1]+"."+b64(sb[:len(sb)-1]), "signature-short"
@@ -367,7 +378,8 @@ func TestC15_CallerHeaders(t *testing.T) {
 		k := genKey(t, "key")
 		payload := genPayload(t)
 		kid := rapid.SampledFrom([]string{"", "key-1"}).Draw(t, "kid")
-		extra := rapid.SampledFrom([]jws.Headers{nil, {"b64": false}, {"b64": true}, {"typ": "JWT"}, {"cty": "json", "b64": false}}).Draw(t, "extra")
+		extra := rapid.SampledFrom([]jws.Headers{nil, {"b64": false}, {"b64": true}, {"typ": "JWT"}, {"cty": "json", "b64": false},
+			{"b64": false, "crit": []string{"b64"}}, {"b64": true, "crit": []interface{}{"b64"}}, {"typ": "JWT", "crit": []string{"typ"}}}).Draw(t, "extra")
 		sig, err := jwsutil.NewJWS(extra, nil, payload, libSignerFor(k, k.Type.Alg(), kid))
 		if err != nil {
 			t.Fatalf("C15 NewJWS(%v): %v", extra, err)
